@@ -27,7 +27,7 @@ CONSTANTS
   N = 8
   Delims = {3, 6}
   MaxOps = %d
-  Sizes = {1, 2, 5}
+  Sizes = {1, 2, 5, 9}
   MaxSteps = %d
   Dev = {}
 INVARIANT Dump
@@ -42,7 +42,7 @@ CONSTANTS
   N = 8
   Delims = {3, 6}
   MaxOps = 1000
-  Sizes = {1, 2, 5}
+  Sizes = {1, 2, 5, 9}
   Dev = %s
 INVARIANTS %s
 CONSTRAINT HighWater
